@@ -104,8 +104,24 @@ def run_c13(out, tier, seed, replay):
                 add(p, var, ops, {"segments": c["segs"]}, c["lms"][-1])
     n_hist = len(cases)
     # ---- (b) idempotence: run; run; run on every program of the corpus
-    gen, by = semlib.enumerate_inputs(sel, work, "quick")
+    # (quick: databases with at most 3 facts; the largest ones are kept by select_cases)
+    # programs with a custom provider: their closure makes exhaustive enumeration expensive; seeded random schedules
+    # with the least model from SemEval instead
+    is_ds = lambda p: any(r["ds"] != "-" for r in p["rels"])
+    sel_b = [dict(p, bound=min(p["bound"], 3)) if tier == "quick" else p for p in sel if not is_ds(p) or tier != "quick"]
+    gen, by = semlib.enumerate_inputs(sel_b, work, "quick")
     out.add_tlc(gen, "SemGen (input databases for the idempotence histories)")
+    if tier == "quick":
+        ds_items = []
+        for p in sel:
+            if is_ds(p):
+                for k in range(30):
+                    ds_items.append({"id": len(ds_items) + 1, "pi": pidx[p["name"]], "inputs": sem.random_inputs(p, rnd), "prog": p})
+        ds_lms, evres = semlib.eval_least_models(sel, ds_items, os.path.join(work, "ds_idem"))
+        for r in evres:
+            out.add_tlc(r, "SemEval (least models of seeded random schedules of the custom-provider programs)")
+        for it in ds_items:
+            by.setdefault(it["prog"]["name"], []).append({"inputs": it["inputs"], "lm": ds_lms[it["id"]]})
     cap = 50 if tier == "quick" else 400
     for p in sel:
         chosen = sem.select_cases(by.get(p["name"], []), cap, rnd)
